@@ -912,7 +912,25 @@ INV_CUT = Cut(
 H_INV = r"""
 typedef V mag_type;
 #define CXC_NDEBUG_ASSERT(c) ((void)0)
-#define std_swap(a, b) do { int t_ = (a); (a) = (b); (b) = t_; } while (0)
+/* A-order: magnitudes (math::norm of a scalar, a real number) are totally ordered: the comparisons of mag_type values are
+ * comparisons of an uninterpreted integer rank of the token (without a total order "the largest candidate" has no meaning) */
+unsigned short __CPROVER_uninterpreted_mag_rank(V);
+/* ... and non-negative: math::zero<mag_type>() has the smallest rank */
+#define MAG_RANK(v) ((V)(v) == MATH_zero(mag_type) ? 0 : 1 + (int)__CPROVER_uninterpreted_mag_rank((V)(v)))
+#undef UF_LESS
+#undef UF_LE
+#define UF_LESS(a, b) (MAG_RANK(a) < MAG_RANK(b))
+#define UF_LE(a, b) (MAG_RANK(a) <= MAG_RANK(b))
+/* ghost observation at the one std::swap of inverse(): swap(p[col], p[pivot_i]) selects the pivot row of column col.
+ * Partial pivoting (what makes A * inv(A) = I hold to rounding for every nonsingular block): the row selected has the LARGEST
+ * magnitude in that column among the candidate rows p[col .. n).  Written over the parameters (A, n, p) and the two operands only. */
+#define PIVOT_IS_MAX(a, b) do { \
+    const int c_ = (int)(&(a) - p); const V pm_ = math_norm(A[(size_t)(b) * (size_t)n + (size_t)c_]); \
+    for (int q_ = 0; q_ < NMAX; ++q_) if (q_ >= c_ && q_ < n) \
+      __CPROVER_assert(!UF_LESS(pm_, math_norm(A[(size_t)p[q_] * (size_t)n + (size_t)c_])), \
+        "ensures: detail::inverse partial pivoting: the pivot row selected for a column has the largest magnitude among the candidate rows p[col .. n)"); \
+  } while (0)
+#define std_swap(a, b) do { PIVOT_IS_MAX(a, b); int t_ = (a); (a) = (b); (b) = t_; } while (0)
 /* std::iota(first, last, v) on ints */
 static void std_iota(int *first, int *last, int v)
 {
@@ -956,7 +974,7 @@ dense_inverse = Unit(
     functions=['detail::inverse(int n, value_type *A, value_type *t, int *p) (detail/inverse.hpp)'],
     desc='pivoted small-matrix inverse, data flow and safety: the result left in A does not depend on the prior content of the workspace t (n*n values) '
          'and p (n ints) -- every workspace cell is written in this call before it is read, for every outcome of the pivot search; every subscript of A, t '
-         'within n*n and of p within n',
+         'within n*n and of p within n; partial pivoting: the pivot row selected for a column has the largest magnitude among the candidate rows',
     cuts={'inverse': INV_CUT},
     template='#define MODEL_UF 1\n#define CXC_UF_T unsigned short\n#include "amgcl_c.h"\n#include <stdlib.h>\nint g_thrown;\n' + QR_PRELUDE + H_INV,
     entry='h_inverse', mode='unwound', unwind='NMAX*NMAX+3', model='uf',
@@ -964,9 +982,10 @@ dense_inverse = Unit(
     variants=[{'INV_N': 3}, {'INV_N': 2}, {'INV_N': 1}],
     bound_text='n in {1, 2, 3}, values symbolic (uninterpreted operations), every outcome of the pivot comparisons (every row permutation), workspace content arbitrary',
     assumptions=[a for a in A_QR if not a.startswith('A-inst')] + [
-        'A-assert: assert(!is_zero(d)) has NDEBUG semantics (no effect); a zero pivot is outside the contract of inverse()'],
+        'A-assert: assert(!is_zero(d)) has NDEBUG semantics (no effect); a zero pivot is outside the contract of inverse()',
+        'A-order: magnitudes are totally ordered (comparisons of mag_type values = comparisons of an uninterpreted integer rank)'],
     replay='bcrsqr', timeout=300, witness=['w_n'],
-    not_decided=['A * inverse(A) == I (needs field arithmetic / floating point)', 'that the pivot chosen is the largest in magnitude'],
+    not_decided=['A * inverse(A) == I (needs field arithmetic / floating point)'],
 )
 dense_inverse.unwindset = [(r'for\s*\(int (?!k_)', 'NMAX+2')]
 
